@@ -50,3 +50,48 @@ Example c08_nonvacuous :
   format_impl (fun _ _ => []) [37;89;45;37;109;45;37;100;84;37;72;58;37;77;58;37;69;42;83;37;69;122] al 500000000000000 0
   = OK [50;48;50;52;45;48;50;45;50;57;84;50;51;58;53;57;58;53;56;46;53;45;48;53;58;48;48].
 Proof. vm_compute. reflexivity. Qed.
+
+From CCTZ Require FormatSpecFull.
+(* "... and every other specifier renders as the C library's strftime does": formats that MIX literal text, %%,
+   library specifiers and strftime-delegated specifiers.  format() hands literal text and %% that follow a pending
+   strftime specifier to strftime together with it, so the statement needs what is assumed of the oracle, as visible
+   premises: strftime renders a run of complete items (literal bytes other than '%' and NUL, "%%", complete
+   conversion specifications in glibc's own delimitation) item by item, a literal as itself and "%%" as "%"
+   (hom), also when the format ends in a specification cut short after its E/O modifier (hom_tail). *)
+Definition strftime_hom (strftime_o : list Z -> tmrec -> list Z) : Prop :=
+  forall ts tm, forallb FormatSpecFull.run_ok ts = true ->
+    strftime_o (flat_map FormatSpecFull.tok_raw ts) tm = flat_map (FormatSpecFull.run_render strftime_o tm) ts.
+Definition strftime_hom_tail (strftime_o : list Z -> tmrec -> list Z) : Prop :=
+  forall ts tl tm, forallb FormatSpecFull.run_ok ts = true -> FormatSpecFull.dangling tl = true ->
+    strftime_o (flat_map FormatSpecFull.tok_raw ts ++ tl) tm
+    = flat_map (FormatSpecFull.run_render strftime_o tm) ts ++ strftime_o tl tm.
+(* unconditional: format() = the token-wise rendering WITH FormatTM's documented 16x buffer cap (finding F12) *)
+Theorem format_spec_capped : forall strftime_o, strftime_hom strftime_o -> strftime_hom_tail strftime_o ->
+  forall fmt al fs unix, clean_fmt fmt = true -> al_ok al -> 0 <= fs < 10 ^ 15 -> int64 unix ->
+  format_impl strftime_o fmt al fs unix
+  = OK (FormatSpecFull.render_spec_capped strftime_o fmt (al_cs al) (al_off al) (al_abbr al) fs unix
+          (spec_tm (al_cs al) (al_dst al))).
+Proof. exact FormatSpecFull.format_spec_capped. Qed.
+Print Assumptions format_spec_capped.
+(* whenever no strftime specifier's rendering hits the cap: exactly the specification's rendering *)
+Theorem format_spec_full : forall strftime_o, strftime_hom strftime_o -> strftime_hom_tail strftime_o ->
+  forall fmt al fs unix, clean_fmt fmt = true -> al_ok al -> 0 <= fs < 10 ^ 15 -> int64 unix ->
+  FormatSpecFull.strftime_fits strftime_o fmt (spec_tm (al_cs al) (al_dst al)) = true ->
+  format_impl strftime_o fmt al fs unix
+  = OK (render_spec strftime_o fmt (al_cs al) (al_off al) (al_abbr al) fs unix (spec_tm (al_cs al) (al_dst al))).
+Proof. exact FormatSpecFull.format_spec_full. Qed.
+Print Assumptions format_spec_full.
+(* the premises are satisfiable: an oracle (C-locale %a, everything else copied through) meeting both *)
+Theorem format_spec_oracle_exists : strftime_hom FormatSpecFull.demo_o /\ strftime_hom_tail FormatSpecFull.demo_o.
+Proof. split; [exact FormatSpecFull.demo_hom | exact FormatSpecFull.demo_hom_tail]. Qed.
+Print Assumptions format_spec_oracle_exists.
+(* F12, machine-checked: with a long rendering the cap makes format() return less than the specification *)
+Theorem format_cap_is_real :
+  let f := [37; 99] in
+  let o := fun s tm => FormatSpecFull.wide tm s in
+  let al := FormatSpecFull.ex_al in
+  clean_fmt f = true /\
+  format_impl o f al 0 0 = OK [] /\
+  render_spec o f (al_cs al) (al_off al) (al_abbr al) 0 0 (spec_tm (al_cs al) (al_dst al)) = repeat 120 40.
+Proof. vm_compute. repeat split. Qed.
+Print Assumptions format_cap_is_real.
